@@ -48,7 +48,7 @@ def run_job(args):
     while start < len(cases):
         json.dump({"cases": cases, "start": start, "watchdog": 10}, open(jf, "w"))
         try:
-            subprocess.run(["/venv/bin/python", WORKER, jf], env=dict(os.environ, PYTHONPATH="/repo", PYTHONDONTWRITEBYTECODE="1"), capture_output=True, text=True, timeout=600)
+            subprocess.run(["/venv/bin/python", WORKER, jf], env=dict(os.environ, PYTHONPATH=os.environ.get("VERIF_REPO", "/repo"), PYTHONDONTWRITEBYTECODE="1"), capture_output=True, text=True, timeout=600)
         except subprocess.TimeoutExpired:
             pass
         part = json.load(open(jf + ".out")) if os.path.exists(jf + ".out") else []
